@@ -49,6 +49,8 @@ def derive(api, rng, convs, recs_of):
         return kind, call(api.chain, order, case_sensitive=rng.random() < 0.6), order
     if kind == "sub":
         P = rng.sample(allp, k=rng.randint(1, len(allp))) if allp else []
+        if rng.random() < 0.2:
+            P = rng.choice([p for p in allp if p] or ["ab"])  # a bare string: the iterable of its characters
         return kind, call(c.get_subconverter, P), [c]
     if kind == "remap_curie":
         m = {}
